@@ -719,9 +719,9 @@ func (ex *Exec) runTop(fn *ssa.Function) {
 			st.assume(env.evalBool(c.E))
 			ex.assumed["spec definition/axiom assumed in "+f.key+": "+c.Src] = true
 		}
-		f.runGhost(st, "entry")
 		f.entry = st.clone()
 		snap.st = f.entry
+		f.runGhost(st, "entry")
 		// vacuity cover: the precondition must be satisfiable
 		ex.cover(f, st, "cover.pre", "preconditions and type invariants are satisfiable")
 	}
@@ -774,11 +774,32 @@ func (ex *Exec) execBlock(f *frame, st *State, b *ssa.BasicBlock, from *ssa.Basi
 			}
 		}
 	}
-	for i, ins := range b.Instrs {
-		if st.dead {
+	ex.execFrom(f, st, b, 0, from)
+}
+
+// execFrom executes the instructions of b from index start.
+func (ex *Exec) execFrom(f *frame, st *State, b *ssa.BasicBlock, start int, from *ssa.BasicBlock) {
+	for i := start; i < len(b.Instrs); i++ {
+		ins := b.Instrs[i]
+		if st.dead || ex.aborted != "" {
 			return
 		}
 		switch x := ins.(type) {
+		case *ssa.Call:
+			if x.Call.Value.Name() == "ssa:deferstack" {
+				st.regs[x] = VOpaque{"0", x.Type()}
+				continue
+			}
+			v := f.call(st, x, &x.Call)
+			if fk, ok := v.(VFork); ok {
+				// the callee's return paths are continued separately (keeps slice offsets exact)
+				for _, r := range fk.rets {
+					r.st.regs[x] = tupleOf(r.vals)
+					ex.execFrom(f, r.st, b, i+1, from)
+				}
+				return
+			}
+			st.regs[x] = v
 		case *ssa.Phi:
 			idx := -1
 			for k, p := range b.Preds {
@@ -825,7 +846,6 @@ func (ex *Exec) execBlock(f *frame, st *State, b *ssa.BasicBlock, from *ssa.Basi
 		default:
 			f.step(st, ins)
 		}
-		_ = i
 	}
 }
 
